@@ -384,3 +384,42 @@ func seeThroughCell(v ssa.Value) ssa.Value {
 	}
 	return v
 }
+
+// optionPlumbed records: the value an option constructor (WithXxx) stores into a field of the options struct is the value
+// handed to the connection's setter when a connection is prepared - the field is found from the constructor, not by name.
+func (r *Run) optionPlumbed(key, rule, withName, setterName string) {
+	w := r.W
+	with := w.MustFn(withName)
+	setter := w.MustFn(setterName)
+	field := ""
+	for _, anon := range with.AnonFuncs {
+		forEachIns(anon, func(i ssa.Instruction) {
+			st, ok := i.(*ssa.Store)
+			if !ok {
+				return
+			}
+			if tn, f, _, ok := fieldOf(st.Addr); ok && tn == "options" {
+				field = f
+			}
+		})
+	}
+	if field == "" {
+		r.ob(key, rule, with, nil, false, withName+" stores into no field of options", false)
+		return
+	}
+	var at ssa.Instruction
+	for _, site := range callSitesOf(w, setter) {
+		args := callCommon(site).Args
+		if len(args) < 2 {
+			continue
+		}
+		if _, ok := loadOfField(args[1], "options", field); ok {
+			at = site
+		}
+	}
+	var fn *ssa.Function
+	if at != nil {
+		fn = at.Parent()
+	}
+	r.ob(key, rule, fn, at, at != nil, fmt.Sprintf("%s stores options.%s; %s(opts.%s) is called when a connection is prepared", withName, field, setter.Name(), field), false)
+}
